@@ -24,6 +24,8 @@ func vAssume(c bool)
 func vAssert(c bool, label string)
 func vNoPanic()
 func vReach(tag string)
+func vObserve(tag string, v uint64)
+func vObserveBytes(tag string, b []byte)
 func vKnown(id string, c bool) bool
 func vParam(name string, def int) int
 func vSymbolic() bool
